@@ -359,6 +359,20 @@ func vHeaderSafe(s string) bool {
 	return true
 }
 
+// vHTTPValueSafe: what net/http accepts as a header value — any byte except control characters (obs-text, i.e. bytes
+// >= 0x80, included); surrounding blanks are trimmed by the transport
+func vHTTPValueSafe(s string) bool {
+	if s == "" || s != strings.TrimSpace(s) {
+		return false
+	}
+	for i := 0; i < len(s); i++ {
+		if (s[i] < 0x20 && s[i] != '\t') || s[i] == 0x7f {
+			return false
+		}
+	}
+	return true
+}
+
 func vHostSafe(s string) bool {
 	for i := 0; i < len(s); i++ {
 		c := s[i]
@@ -394,6 +408,12 @@ func vUseHTTP(t *testing.T, out *vOut, secrets []string) {
 		}
 	}
 	safe = append(safe, "tok-"+strings.Repeat("Zx9-", 40)) // a long token (164 bytes)
+	// header values are BYTES: non-ASCII secrets (UTF-8, Latin-1 bytes, a tab inside) must arrive as configured
+	for _, sec := range append(append([]string{}, secrets...), "l\xe4tin1-\xfc\xdf-s3cr3t", "tab\tinside-s3cr3t", "emoji-\U0001F511-key") {
+		if !vHeaderSafe(sec) && vHTTPValueSafe(sec) && len(sec) < 200 {
+			safe = append(safe, sec)
+		}
+	}
 	hostSafe = append(hostSafe, "long-"+strings.Repeat("h0st.", 14)+"example")
 	mkeys := []string{"Authorization", "authorization-2", "X-Api-Key", "X-Signature-Bin", "x-tenant-bin", "X-UPPER-BIN", "x_under_score", "X-Mixed-cASE-bin", "x-bin", "bin"}
 	for r := 0; r < len(safe); r++ {
@@ -524,8 +544,8 @@ func vUseHTTP(t *testing.T, out *vOut, secrets []string) {
 		cancel()
 		_ = hs.Close()
 	}
-	for _, sec := range secrets {
-		if !vHeaderSafe(sec) {
+	for _, sec := range append(append([]string{}, secrets...), "l\xe4tin1-\xfc\xdf-s3cr3t", "tab\tinside-s3cr3t") {
+		if !vHTTPValueSafe(sec) {
 			continue
 		}
 		// -- client headers and Host
@@ -1399,6 +1419,69 @@ func vAfterUse(t *testing.T, out *vOut, secrets []string) {
 	}
 }
 
+// vMarshalInsideUnmarshal: a component's Unmarshal(conf) that MARSHALS into the Conf it was handed by the decoding hook
+// (merging a struct of defaults, opaque values included) before decoding: what Marshal puts into that Conf must be
+// redacted like anywhere else.
+type vUnmMarsh struct {
+	Tok  configopaque.String            `mapstructure:"tok"`
+	Hdr  map[string]configopaque.String `mapstructure:"hdr"`
+	seen *[]string
+	def  *vUnmDefaults
+}
+
+type vUnmDefaults struct {
+	Tok configopaque.String            `mapstructure:"tok"`
+	Hdr map[string]configopaque.String `mapstructure:"hdr"`
+}
+
+func (u *vUnmMarsh) Unmarshal(conf *confmap.Conf) error {
+	if u.def != nil {
+		if err := conf.Marshal(*u.def); err != nil {
+			return err
+		}
+		var b strings.Builder
+		vRawDump(reflect.ValueOf(conf.ToStringMap()), &b, 0)
+		*u.seen = append(*u.seen, vCanon(conf.ToStringMap()), b.String(), fmt.Sprintf("%v", conf.ToStringMap()))
+	}
+	return conf.Unmarshal(u, confmap.WithIgnoreUnused())
+}
+
+func vMarshalInsideUnmarshal(t *testing.T, out *vOut, secrets []string) {
+	for i, sec := range secrets {
+		if len(sec) > 200 {
+			continue
+		}
+		other := secrets[(i+1)%len(secrets)]
+		if len(other) > 200 {
+			other = secrets[0]
+		}
+		var seen []string
+		type outerT struct {
+			Comp vUnmMarsh `mapstructure:"comp"`
+			More string    `mapstructure:"more"`
+		}
+		o := outerT{Comp: vUnmMarsh{seen: &seen, def: &vUnmDefaults{Tok: configopaque.String(sec), Hdr: map[string]configopaque.String{"k": configopaque.String(other)}}}}
+		in := confmap.NewFromStringMap(map[string]any{"comp": map[string]any{}, "more": "m"})
+		if err := in.Unmarshal(&o); err != nil {
+			t.Fatalf("marshal inside unmarshal: %v", err)
+		}
+		out.Stat("marshal_inside_unmarshal", 1)
+		if len(seen) < 3 {
+			out.Oracle("secret-revealed", "CRender SBare "+vEnc(sec)+" []", "path=confmap.Marshal inside Unmarshal(conf): the nested Unmarshal was not called by the decoding hook; cause=unexplained")
+			continue
+		}
+		// the Conf after Marshal, as a case for the config-map model: {hdr:{k:"[REDACTED]"},tok:"[REDACTED]"} = struct{F map..}, struct{F String}
+		term := vCaseRender(vF(vBare), sec, []vRendering{{"PConfmap", strings.Replace(strings.Replace(seen[0], "hdr:{k:\"[REDACTED]\"},", "", 1), "tok:", "f:", 1), false}})
+		out.Case(true, term)
+		cfg := [][2]string{{"tok", sec}, {"hdr.k", other}}
+		vFailOracle(out, "confmap.Marshal into the Conf handed to Unmarshal(conf) by the decoding hook", term, cfg, seen...)
+		// (decoding afterwards stores the marker, by design: Marshal redacts, so a marshalled Conf is not a source of secrets)
+		if string(o.Comp.Tok) != "[REDACTED]" {
+			out.Stat("marshal_inside_unmarshal_not_marker", 1)
+		}
+	}
+}
+
 // vTLSCA: the CA pool from ca_file / ca_pem: valid certificate, a PEM block that is no certificate, plain garbage
 func vTLSCA(t *testing.T, out *vOut) {
 	dir := t.TempDir()
@@ -1473,6 +1556,7 @@ func TestVerifC14E2E(t *testing.T) {
 	vTLSCA(t, out)
 	vValidate(t, out, r.secrets)
 	vAfterUse(t, out, r.secrets)
+	vMarshalInsideUnmarshal(t, out, r.secrets)
 	vUseFailures(t, out, r.secrets)
 
 	// ---- decoding through confmap
